@@ -33,6 +33,7 @@ def build_tree(root):
         "outside/target.py": "t = 1\n",
         "outside/keep.txt": "sentinel outside everything\n",
         "cwd/sentinel.txt": "sentinel in the working directory\n",
+        "cwd/n1/n2/sentinel.txt": "sentinel in a nested working directory (relative inputs that climb)\n",
         DEFAULT_WS + "_runs/sentinel.txt": "sentinel in a working directory whose name contains the default workspace name\n",
         DEFAULT_WS + "_runs/out/keep.txt": "user file in a sub-directory of that working directory\n",
         "settings/entry.yaml": '- method_list: ["%unit_init"]\n',
@@ -137,11 +138,17 @@ def run_case(case):
     try:
         build_tree(root)
         warg, cwd = workspace_arg(root, placement, cwdkind)
+        if spelling == "relative_deep":
+            # lian started two levels further down: the relative input climbs with several leading ".."
+            cwd = os.path.join(cwd, "n1", "n2")
+            os.makedirs(cwd, exist_ok=True)
         eff = effective_workspace(warg, cwd)
         eff_real = os.path.realpath(eff)
         base = os.path.join(root, "via") if spelling == "symlink" else root
         inp = os.path.join(base, "proj") if input_kind == "dir" else os.path.join(base, "proj", "a.py")
-        env = dict(os.environ, PYTHONHASHSEED="0", LIAN_VERIF="1")
+        if spelling in ("relative", "relative_deep"):
+            inp = os.path.relpath(inp, cwd)
+        env = dict(os.environ, PYTHONHASHSEED="0", LIAN_VERIF="1", PYTHONPATH=common.SRC)   # the tree under test, not an installed copy
         common_argv = ["/venv/bin/python", os.path.join(common.SRC, "lian", "main.py"), "lang", "-l", "python",
                        "--default-settings", os.path.join(root, "settings")]
         if inc:
@@ -165,7 +172,7 @@ def run_case(case):
                     if f.endswith(".py") and not os.path.islink(p) and not under(p, eff):
                         in_bytes += os.path.getsize(p)
         else:
-            in_bytes = os.path.getsize(inp)
+            in_bytes = os.path.getsize(os.path.join(cwd, inp))
         before = snapshot(root)
         argv = list(common_argv)
         if warg is not None:
@@ -240,6 +247,9 @@ def main():
     cases = [(pl, f, k, pre, "real", "plain", mockb) for pl in placements for f in ("f", "") for k in ("dir", "file") for pre in (False, True)]
     # inputs spelled through a symlinked ancestor
     cases += [(pl, "f", k, False, "symlink", "plain", mockb) for pl in placements for k in ("dir", "file")]
+    # inputs spelled relative to the working directory (one "..", and three ".." from a nested working directory)
+    cases += [(pl, "f", k, False, sp, "plain", mockb) for pl in placements for k in ("dir", "file")
+              for sp in ("relative", "relative_deep")]
     # working directory whose own name contains the default workspace name
     cases += [(pl, "f", "dir", pre, "real", "named", mockb) for pl in placements for pre in (False, True)]
     # histories: forced run, user file dropped into the workspace, then an incremental run without / with --force
@@ -269,7 +279,7 @@ def main():
     evidence.write(PID, "exploration", {
         "evaluations": len(results), "distinct_nontrivial": completed,
         "rule": "complete product placement x flags x input kind x pre-existing workspace, plus placement x {input spelled via a "
-                "symlinked ancestor, cwd named like the default workspace, forced-run-then-incremental history}; a case is non-trivial when lian "
+                "symlinked ancestor, input spelled relative to cwd with one / three leading '..', cwd named like the default workspace, forced-run-then-incremental history}; a case is non-trivial when lian "
                 "actually ran the language phase to completion (the others are refusals, also checked for no side effects)",
         "samples": [r["case"] for r in results[:3]] + [r["case"] for r in results[-2:]],
         "exhaustive": True, "placements": placements, "outcomes": outcomes,
